@@ -778,9 +778,13 @@ var _ uuid.UUID
 //@ modifies nothing
 
 //@ func github.com/satori/go.uuid.FromBytesOrNil
-//@ props C12
+//@ props C12 C11
 //@ assume
+//@ noalloc
+//@ ensures [parsed] len(input) == 16 ==> ret == uuidOfBytes(input)
+//@ ensures [nil-otherwise] len(input) != 16 ==> ret == uuid.Nil
 //@ modifies nothing
+//@ spec itemIdOrNil(it *pb.BatchItem) uuid.UUID = ite(it != nil && len(it.Id) == 16, uuidOfBytes(it.Id), uuid.Nil)
 
 // the partition a batch item belongs to: the one the single-item path (getPartitionForId) selects for its id
 //@ spec ownerOf(d *Dataset, it *pb.BatchItem) *partition = d.partitions[uuidmod(uuidOfBytes(it.Id), d.meta.PartitionCount)]
@@ -812,10 +816,17 @@ var _ uuid.UUID
 //@ requires [client] !isnil(arg0)
 //@ modifies *
 
+// a failed sub-batch: every one of its items is reported with that error, and nothing else is
 //@ func (*storage.Dataset).errorToPartitionBatchResult
-//@ props C12
-//@ ensures [map] ret != nil
+//@ props C12 C11
+//@ ensures [map] ret != nil && fresh(ret)
+//@ ensures [C11 every-item-reported] forall i int :: 0 <= i && i < len(items) ==> has(ret, itemIdOrNil(items[i])) && ret[itemIdOrNil(items[i])] == err
+//@ ensures [C11 only-that-error] forall k uuid.UUID :: has(ret, k) ==> ret[k] == err
 //@ modifies nothing
+//@ loop 1
+//@ invariant [map] result != nil && fresh(result)
+//@ invariant [C11 prefix-reported] forall i int :: 0 <= i && i <= rangeindex ==> has(result, itemIdOrNil(items[i])) && result[itemIdOrNil(items[i])] == err
+//@ invariant [C11 only-that-error] forall k uuid.UUID :: has(result, k) ==> result[k] == err
 
 // keys of a peer's error map are produced by UUID.String() on that peer (services.errorsMapToBatchResponse)
 //@ func (*storage.Dataset).errorsResponseToPartitionBatchResult
@@ -830,11 +841,36 @@ var _ uuid.UUID
 //@ func (*storage.Dataset).handlePartitionBatchRequest
 //@ props C12 C11
 //@ ghost sent int = 0
+//@ ghost msg partitionBatchResult = nil
+//@ ghost localCalls int = 0
+//@ ghost localMap map[uuid.UUID]error = nil
+//@ ghost localErr error = nil
+//@ ghost remoteCalls int = 0
+//@ ghost remoteErr error = nil
+//@ ghost dialErr error = nil
 //@ at send param:resultCh
 //@ set sent = sent + 1
+//@ set msg = $val
+//@ end
+//@ at call localFn
+//@ set localCalls = localCalls + 1
+//@ set localMap = $ret0
+//@ set localErr = $ret1
+//@ end
+//@ at call remoteFn
+//@ set remoteCalls = remoteCalls + 1
+//@ set remoteErr = $ret1
+//@ end
+//@ at call getDataManagerClient
+//@ set dialErr = $ret1
 //@ end
 //@ noclose resultCh
 //@ ensures [C11 one-message] sent == 1
+//@ ensures [C11 one-route] localCalls + remoteCalls <= 1
+//@ ensures [C11 local-answer-is-the-partitions-answer] localCalls == 1 && isnil(localErr) ==> msg == localMap
+//@ ensures [C11 local-failure-reported-for-every-item] localCalls == 1 && !isnil(localErr) ==> forall i int :: 0 <= i && i < len(items) ==> has(msg, itemIdOrNil(items[i])) && msg[itemIdOrNil(items[i])] == localErr
+//@ ensures [C11 unreachable-owner-reported-for-every-item] !isnil(dialErr) ==> localCalls + remoteCalls == 0 && forall i int :: 0 <= i && i < len(items) ==> has(msg, itemIdOrNil(items[i])) && msg[itemIdOrNil(items[i])] == dialErr
+//@ ensures [C11 rpc-failure-reported-for-every-item] remoteCalls == 1 && !isnil(remoteErr) ==> forall i int :: 0 <= i && i < len(items) ==> has(msg, itemIdOrNil(items[i])) && msg[itemIdOrNil(items[i])] == remoteErr
 //@ requires [wf] wfDataset(this) && wfPartition(this, partition) && !isnil(ctx) && noNilItems(items) && wg != nil && remoteFn != nil && localFn != nil
 //@ modifies *
 
@@ -1077,23 +1113,62 @@ var _ uuid.UUID
 //@ invariant [prefix] forall i int :: 0 <= i && i <= rangeindex ==> len(items[i].Id) == 16 && (withValue ==> dimOK(this, len(items[i].Value)))
 
 //@ func (*storage.partition).batchInsert
-//@ props C12
+//@ props C12 C11
 //@ trust check lossless
+//@ ghost proposed int = 0
+//@ ghost pres interface{} = nil
+//@ ghost perr error = nil
+//@ at call partition).proposeAndWaitForCommit
+//@ set proposed = proposed + 1
+//@ set pres = $ret0
+//@ set perr = $ret1
+//@ end
 //@ requires [wf] pready(this) && !isnil(ctx)
 //@ requires [items] forall i int :: 0 <= i && i < len(items) ==> items[i] != nil
+//@ ensures [C11 not-loaded-is-error] old(this.raft) == nil ==> !isnil(ret1) && proposed == 0
+//@ ensures [C11 success-only-if-applied] isnil(ret1) ==> proposed == 1 && isnil(perr) && istype(pres, partitionBatchResult) && ret0 == pres.pay
+//@ ensures [C11 proposal-error-is-answer] proposed == 1 && !isnil(perr) ==> ret1 == perr && ret0 == nil
+//@ ensures [C11 invalid-batch-proposes-nothing] proposed == 0 ==> !isnil(ret1) && ret0 == nil
+//@ ensures [C11 at-most-one-proposal] proposed <= 1
 //@ modifies *
 //@ loop 1
 //@ invariant [validated] wfBatch(this, items, true) && pready(this)
 //@ invariant [levels] forall i int :: 0 <= i && i <= rangeindex ==> items[i].Level >= 0
 //@ func (*storage.partition).batchUpdate
-//@ props C12
+//@ props C12 C11
+//@ ghost proposed int = 0
+//@ ghost pres interface{} = nil
+//@ ghost perr error = nil
+//@ at call partition).proposeAndWaitForCommit
+//@ set proposed = proposed + 1
+//@ set pres = $ret0
+//@ set perr = $ret1
+//@ end
 //@ requires [wf] pready(this) && !isnil(ctx)
 //@ requires [items] forall i int :: 0 <= i && i < len(items) ==> items[i] != nil
+//@ ensures [C11 not-loaded-is-error] old(this.raft) == nil ==> !isnil(ret1) && proposed == 0
+//@ ensures [C11 success-only-if-applied] isnil(ret1) ==> proposed == 1 && isnil(perr) && istype(pres, partitionBatchResult) && ret0 == pres.pay
+//@ ensures [C11 proposal-error-is-answer] proposed == 1 && !isnil(perr) ==> ret1 == perr && ret0 == nil
+//@ ensures [C11 invalid-batch-proposes-nothing] proposed == 0 ==> !isnil(ret1) && ret0 == nil
+//@ ensures [C11 at-most-one-proposal] proposed <= 1
 //@ modifies *
 //@ func (*storage.partition).batchRemove
-//@ props C12
+//@ props C12 C11
+//@ ghost proposed int = 0
+//@ ghost pres interface{} = nil
+//@ ghost perr error = nil
+//@ at call partition).proposeAndWaitForCommit
+//@ set proposed = proposed + 1
+//@ set pres = $ret0
+//@ set perr = $ret1
+//@ end
 //@ requires [wf] pready(this) && !isnil(ctx)
 //@ requires [items] forall i int :: 0 <= i && i < len(items) ==> items[i] != nil
+//@ ensures [C11 not-loaded-is-error] old(this.raft) == nil ==> !isnil(ret1) && proposed == 0
+//@ ensures [C11 success-only-if-applied] isnil(ret1) ==> proposed == 1 && isnil(perr) && istype(pres, partitionBatchResult) && ret0 == pres.pay
+//@ ensures [C11 proposal-error-is-answer] proposed == 1 && !isnil(perr) ==> ret1 == perr && ret0 == nil
+//@ ensures [C11 invalid-batch-proposes-nothing] proposed == 0 ==> !isnil(ret1) && ret0 == nil
+//@ ensures [C11 at-most-one-proposal] proposed <= 1
 //@ modifies *
 
 //@ func iface:protobuf.DataManagerClient.Insert
